@@ -113,12 +113,15 @@ func (db *SingleBucketBackend) ListBucket(bucket string, prefix *gofakes3.Prefix
 }
 
 func (db *SingleBucketBackend) getBucketWithFilePrefixLocked(bucket string, prefixPath, prefixPart string) (*gofakes3.ObjectList, error) {
+	response := gofakes3.NewObjectList()
+
 	dirEntries, err := afero.ReadDir(db.fs, filepath.FromSlash(prefixPath))
-	if err != nil {
+	if os.IsNotExist(err) && prefixPath != "" {
+		// No key starts with the directory part of the prefix:
+		return response, nil
+	} else if err != nil {
 		return nil, err
 	}
-
-	response := gofakes3.NewObjectList()
 
 	for _, entry := range dirEntries {
 		object := entry.Name()
